@@ -495,3 +495,14 @@ func (s *Packet) LocalAddr() net.Addr { return pipeAddr(s.name) }
 
 // ErrInjected is the error used for injected faults.
 var ErrInjected = errors.New("simnet: injected fault")
+
+// Read, Write and RemoteAddr make a Packet end usable as a message-preserving net.Conn
+// (like dpipe or net.Pipe: one Write is one Read, empty messages included).
+func (s *Packet) Read(b []byte) (int, error) {
+	n, _, err := s.ReadFrom(b)
+	return n, err
+}
+
+func (s *Packet) Write(b []byte) (int, error) { return s.WriteTo(b, nil) }
+
+func (s *Packet) RemoteAddr() net.Addr { return pipeAddr(s.peer.name) }
